@@ -526,6 +526,72 @@ class Gen:
     return K.Model(x_in, x), 1
 
 
+  # -- strengthening round 4: merges of BROADCAST operands, floating-point reference models (own stream)
+  BCAST_AQ = ["quantized_relu(4,1)", "quantized_relu(6,2)", "quantized_bits(4,0,1)", "quantized_bits(8,2,1)",
+              "quantized_relu(3,1)", "quantized_bits(6,1,1)"]
+
+  def m_merge_bcast(self):
+    """element-wise merge whose operands have DIFFERENT shapes (Keras broadcasts them): one operand has the
+    full (H, W, C) / (C,) shape of the result, the others are broadcast along the channel axis (H, W, 1),
+    the spatial axes (1, 1, C) (squeeze-and-excite), one spatial axis (H, 1, C) / (1, W, C), every axis
+    (1, 1, 1), or are rank-2 gates (1,) x (C,); 2-3 operands, the full operand first / last / in the middle
+    of the Keras call; one model in five is a TWO-SIDED broadcast where no operand has the shape of the result
+    ((H,1,C) x (1,W,C), (H,W,1) x (1,1,C): recorded finding C19-merge-two-sided-broadcast).  Every operand of one merge carries the SAME activation quantizer (energy_estimate
+    pairs Keras' operand shapes with the graph's edge order, see notes)."""
+    K, Q = self.K, self.Q
+    aq = self.ch(self.BCAST_AQ)
+    small_kinds = []
+    if self.p(0.25):
+      c = self.ri(2, 8)
+      x_in, x = self.head((self.ri(2, 10),))
+      full = Q.QActivation(aq)(Q.QDense(c, kernel_quantizer=self.kq(), bias_quantizer="quantized_bits(4,0,1)")(x))
+      def small(kind):
+        return Q.QActivation(aq)(Q.QDense(1, kernel_quantizer=self.kq(), bias_quantizer="quantized_bits(4,0,1)")(x))
+      kinds = ["gate"]
+    else:
+      h, w, c = self.ri(2, 6), self.ri(2, 6), self.ri(2, 6)
+      x_in, x = self.head((h, w, self.ri(1, 3)))
+      full = Q.QActivation(aq)(Q.QConv2D(c, self.ch([1, 3]), padding="same", kernel_quantizer=self.kq(),
+                                         bias_quantizer="quantized_bits(4,0,1)")(x))
+      def small(kind):
+        f, ks = {"channel": (1, (1, 1)), "spatial": (c, (h, w)), "row": (c, (1, w)), "col": (c, (h, 1)),
+                 "scalar": (1, (h, w))}[kind]
+        t = Q.QConv2D(f, ks, padding="valid", kernel_quantizer=self.kq(), bias_quantizer="quantized_bits(4,0,1)")(full)
+        return Q.QActivation(aq)(t)
+      kinds = ["channel", "channel", "channel", "spatial", "row", "col", "scalar"]
+    n_small = self.ch([1, 1, 1, 2])
+    ops = []
+    two_sided = len(kinds) > 1 and self.p(0.2)
+    if two_sided:
+      # NO operand has the shape of the result: (H,1,C) x (1,W,C) or (H,W,1) x (1,1,C), either order
+      small_kinds = list(self.ch([("row", "col"), ("col", "row"), ("channel", "spatial"), ("spatial", "channel")]))
+      ops = [small(k_) for k_ in small_kinds]
+      small_kinds.append("twosided")
+      pos = -1
+    else:
+      for _ in range(n_small):
+        kind = self.ch(kinds)
+        small_kinds.append(kind)
+        ops.append(small(kind))
+      pos = self.ri(0, len(ops))            # where the full operand goes: 0 = first ... len = last
+      ops.insert(pos, full)
+    cls = self.ch(["Add", "Add", "Multiply", "Multiply", "Multiply", "Average", "Maximum", "Minimum"])
+    y = getattr(K.layers, cls)()(ops)
+    self.run.count("gen_merge_bcast_%s_%s_full_%s" % (cls, "+".join(sorted(small_kinds)),
+                                                      "absent" if pos < 0 else "first" if pos == 0 else "last" if pos == len(ops) - 1 else "middle"))
+    if self.p(0.5):
+      y = Q.QActivation(self.ch(["quantized_relu(6,2)", "quantized_bits(8,2,1)"]))(y)
+    if self.p(0.3):
+      y = K.layers.Flatten()(y)
+      y = Q.QDense(self.ri(1, 4), kernel_quantizer=self.kq(), bias_quantizer="quantized_bits(4,0,1)")(y)
+    return K.Model(x_in, y), 1
+
+  def m_ref_fp(self):
+    """a model of one of the other builders (single input), meant for the floating-point REFERENCE route"""
+    return self.ch([self.m_conv2d, self.m_conv2d, self.m_dense, self.m_pool, self.m_conv1d, self.m_bn,
+                    self.m_merge_nary, self.m_merge_bcast, self.m_multi_out])()
+
+
 # ----------------------------------------------------------------------------- oracle on a real layer
 
 CONV2D = ("QConv2D", "Conv2D")
@@ -628,7 +694,7 @@ def layer_oracle(K, tf, layer, in_shapes):
     return "globalavgpool", n, d
   if cls in ELEMWISE_MERGE:
     out = real_out_shape(K, tf, layer, in_shapes)
-    d.update(out=out, n_inputs=len(in_shapes))
+    d.update(out=out, n_inputs=len(in_shapes), in_shapes=[list(x) for x in in_shapes])
     return "merge", _prod(out), d                  # operations per extra operand (see notes)
   if cls in SEP2D + SEP1D:
     out = real_out_shape(K, tf, layer, in_shapes)
@@ -695,6 +761,13 @@ def count_signature(kind, reported, brute, d):
     return "missing_depth_multiplier"
   if kind == "dense" and d.get("lead", 1) > 1 and d["kernel"] == [1, 1] and reported == d["lead"] ** 2:
     return "max_over_leading_axis"
+  if kind == "merge" and d.get("in_shapes"):
+    sizes = [_prod(x) for x in d["in_shapes"]]
+    if max(sizes) < brute and reported == max(sizes):
+      # no operand has the shape of the result and the LARGEST operand was counted
+      return "largest_operand_of_two_sided_broadcast"
+    if any(z < brute and reported == z for z in sizes):
+      return "size_of_a_broadcast_operand"
   if kind in ("sepconv2d", "sepconv1d"):
     dk, pk = d["kernel"], d["pointwise"]
     dwpart = d["positions"] * _prod(dk)
@@ -1064,7 +1137,9 @@ def run(run: core.Run, tier: str):
     import tensorflow.keras as K
     import qkeras as Q
     from qkeras import estimate
-    from qkeras.qtools import run_qtools, qtools_util
+    from qkeras.qtools import run_qtools, qtools_util, qgraph
+    from qkeras.qtools import generate_layer_data_type_map as gldtm
+    from qkeras.qtools import config_public
     from qkeras.qtools import settings as qsettings
     from qkeras.qtools.qenergy import qenergy
   rng = np.random.default_rng(run.seed)
@@ -1075,6 +1150,9 @@ def run(run: core.Run, tier: str):
   g4 = Gen(np.random.default_rng([int(run.seed), 1906]), run, K, Q)   # n-ary merge / BN models: own stream
   n_models = 150 if tier == "quick" else 900
   n_extra = 27 if tier == "quick" else 150     # models of the round-3 builders, AFTER the main models
+  g5 = Gen(np.random.default_rng([int(run.seed), 1907]), run, K, Q)   # broadcast merges / fp references: own stream
+  n_extra2 = 20 if tier == "quick" else 120    # models of the round-4 builders, AFTER those
+  interm_default = config_public.config_settings.get("default_interm_quantizer")
   run.extra["rule"] = (
       "random Keras/QKeras models (legacy tf_keras): Conv2D/QConv2D, Conv1D/QConv1D, (Q)DepthwiseConv2D, "
       "(Q)Dense (also Dense(1) on (C,1)/(1,C,1)/(C,1,1)), (Q)AveragePooling2D, (Q)GlobalAveragePooling2D, "
@@ -1096,6 +1174,11 @@ def run(run: core.Run, tier: str):
       "binary / ternary / po2, 1-3 merges, merges of merges, multi-output) and with (Q)BatchNormalization "
       "variants (scale / center off, po2 parameters); op_cost of every layer of every call judged against "
       "the documented function of the reported operator type, implementation, count and operand number; "
+      "plus 20 models (own PRNG stream) with merges of BROADCAST operands (channel / spatial / one-axis / all-axes / "
+      "rank-2 gates, full operand first / middle / last, two-sided broadcasts) and floating-point REFERENCE models "
+      "(keras_quantizer / keras_accumulator from fp16 / fp32 / None, default_interm_quantizer fp16 / fp32, own fp16 "
+      "polynomials); every multi-operand merge of every model also through CreateGraph -> "
+      "generate_layer_data_type_map with its operand edges re-inserted smallest-first and largest-first; "
       "non-trivial = distinct (class, geometry) layer or distinct (model, placement) or distinct later call")
   run.assumptions += [
       "Keras compute_output_shape / conv_output_length is trusted Keras code; its result is compared with "
@@ -1126,8 +1209,20 @@ def run(run: core.Run, tier: str):
   orig_polys = None
 
   merge_spec_lines, merge_spec_meta = [], []
-  for mi in range(n_models + n_extra):
-    if mi < n_models:
+  for mi in range(n_models + n_extra + n_extra2):
+    kq_ref, ka_ref, force_ref, interm = "fp32", "fp32", None, None
+    if mi >= n_models + n_extra:
+      # round-4 builders; every draw comes from g5.  Reference route: keras_quantizer / keras_accumulator from
+      # fp16 / fp32 / None (None -> cfg.default_interm_quantizer, itself switched to fp16 for some models
+      # through the public config_settings table QTools re-reads at construction)
+      gx = g5
+      j4 = mi - n_models - n_extra
+      bname, bfn = (("ref_fp", g5.m_ref_fp) if j4 % 2 == 1 else ("merge_bcast", g5.m_merge_bcast))
+      kq_ref = g5.ch(["fp16", "fp16", "fp32", None])
+      ka_ref = g5.ch(["fp16", "fp16", "fp32", None])
+      force_ref = True if bname == "ref_fp" else g5.p(0.3)
+      interm = g5.ch([None, None, "fp16", "fp32"])
+    elif mi < n_models:
       # the first len(builders) models take every builder once, then weighted draws
       bi = mi if mi < len(builders) else int(rng.choice(len(builders), p=weights))
       bname, bfn, _ = builders[bi]
@@ -1144,7 +1239,14 @@ def run(run: core.Run, tier: str):
     run.count("model_" + bname)
     srcq = [gx.ch(SRCQ) for _ in range(n_in)]
     for_reference = gx.p(0.12)
+    if force_ref is not None:
+      for_reference = force_ref
     custom_cost = gx.p(0.3)
+    if interm is not None:
+      config_public.config_settings["default_interm_quantizer"] = interm
+      run.count("cfg_default_interm_quantizer_%s" % interm)
+    elif interm_default is not None:
+      config_public.config_settings["default_interm_quantizer"] = interm_default
     process = "horowitz"
     if custom_cost:
       # a process name config_settings does not know: cfg.update keeps whatever polynomials the
@@ -1160,6 +1262,10 @@ def run(run: core.Run, tier: str):
       qsettings.cfg.fpm_mul = rp(2, -0.005, 0.01)
       qsettings.cfg.fp32_add = rp(0, 0.1, 2.0)
       qsettings.cfg.fp32_mul = rp(0, 0.1, 5.0)
+      if gx is g5:
+        # the 16-bit floating point cells get their own polynomials (never equal to the fp32 ones)
+        qsettings.cfg.fp16_add = rp(0, 2.1, 3.0)
+        qsettings.cfg.fp16_mul = rp(0, 5.1, 7.0)
       qsettings.cfg.sram_rd = rp(2, -0.3, 0.5)
       qsettings.cfg.dram_rd = rp(1, -5.0, 30.0)
       run.count("cost_custom")
@@ -1170,8 +1276,10 @@ def run(run: core.Run, tier: str):
       with _quiet():
         qt = run_qtools.QTools(model, process=process,
                                source_quantizers=[Q.quantizers.get_quantizer(s) for s in srcq],
-                               is_inference=False, weights_path=None, keras_quantizer="fp32",
-                               keras_accumulator="fp32", for_reference=for_reference)
+                               is_inference=False, weights_path=None, keras_quantizer=kq_ref,
+                               keras_accumulator=ka_ref, for_reference=for_reference)
+      if for_reference:
+        run.count("reference_route_kq=%s_ka=%s_interm=%s" % (kq_ref, ka_ref, interm or "default"))
     except Exception as e:  # pylint: disable=broad-except
       # outside C19: the data-type map could not be built (unsupported type combination, C16-C18)
       run.count("qtools_rejected_%s_%s" % (bname, type(e).__name__))
@@ -1221,6 +1329,60 @@ def run(run: core.Run, tier: str):
           kout = _shape(layer.compute_output_shape(tuple([None] + in_shapes[0])))
         spec_lines.append(sl)
         spec_meta.append((cls, kind, brute, d, emp, kout, sl))
+    # ------------------------------------------------------------ merge counts under BOTH edge orders
+    # qgraph collects the edges of a merge node from a python set, so which operand the data-type map sees
+    # first varies from process to process.  The same public pipeline QTools.__init__ runs (CreateGraph ->
+    # GraphPropagateActivationsToEdges -> generate_layer_data_type_map) is driven here with the operand edges
+    # of every merge node re-inserted smallest-first and largest-first: the count must be the loop-nest count
+    # of the real forward pass in both.
+    merge_layers = [l for l in model.layers if l.__class__.__name__ in ELEMWISE_MERGE
+                    and isinstance(l.input, (list, tuple)) and len(l.input) > 1]
+    if qt is not None and merge_layers:
+      for order in ("smallest_first", "largest_first"):
+        try:
+          with _quiet():
+            graph, sql = qgraph.CreateGraph(model, [Q.quantizers.get_quantizer(s) for s in srcq],
+                                            qsettings.cfg.default_source_quantizer)
+            qgraph.GraphPropagateActivationsToEdges(graph)
+            for node in list(graph.nodes):
+              lyr = graph.nodes[node].get("layer", [None])[0]
+              if not any(lyr is m for m in merge_layers):
+                continue
+              preds = list(graph.predecessors(node))
+              data = {p_: dict(graph.edges[(p_, node)]) for p_ in preds}
+              preds.sort(key=lambda p_: _prod(list(data[p_]["shape"])[1:]), reverse=(order == "largest_first"))
+              for p_ in preds:
+                graph.remove_edge(p_, node)
+              for p_ in preds:
+                graph.add_edge(p_, node, **data[p_])
+            lm2 = gldtm.generate_layer_data_type_map(graph, sql, False, kq_ref, ka_ref, for_reference)
+        except Exception as e:  # pylint: disable=broad-except
+          run.count("edge_order_route_raises_%s" % type(e).__name__)
+          continue
+        for lyr in merge_layers:
+          if lyr not in lm2["layer_data_type_map"]:
+            continue
+          in_shapes = [_shape(s_) for s_ in lyr.input_shape]
+          with _quiet():
+            orc = layer_oracle(K, tf, lyr, in_shapes)
+          reported = int(gv(lm2["layer_data_type_map"][lyr], "operation_count"))
+          bcast = any(x != in_shapes[0] for x in in_shapes)
+          run.case(("count_edge_order", mname, lyr.name, order), nontrivial=bcast)
+          sig = count_signature("merge", reported, orc[1], orc[2])
+          run.count("count_edge_order_%s_%s_%s" % ("broadcast" if bcast else "same_shape", order, sig))
+          if sig == "largest_operand_of_two_sided_broadcast":
+            continue      # recorded finding, reported (with the model tie) by the main count stream
+          if sig != "ok":
+            run.violate("operation_count_is_mac_count",
+                        {"stream": "count_edge_order", "class": lyr.__class__.__name__, "signature": sig,
+                         "operand_edges": order},
+                        {"model": mname, "class": lyr.__class__.__name__, "operand_shapes": in_shapes,
+                         "output_shape_of_a_real_forward_pass": orc[2]["out"], "reported": reported,
+                         "loop_nest_count": orc[1], "operand_edge_order": order,
+                         "replay": "graph, sql = qgraph.CreateGraph(model, ...); GraphPropagateActivationsToEdges(graph); "
+                                   "re-insert the merge node's operand edges %s; generate_layer_data_type_map(graph, sql, "
+                                   "False)['layer_data_type_map'][merge layer].operation_count" % order},
+                        mirrored=False)
     # ------------------------------------------------------------ estimate.py
     if all(l.__class__.__name__ in ("InputLayer", "QActivation", "QConv2D", "QConv1D", "QDepthwiseConv2D",
                                     "QSeparableConv2D", "QSeparableConv1D", "QDense") for l in model.layers) \
@@ -1404,8 +1566,8 @@ def run(run: core.Run, tier: str):
           with _quiet(), np.errstate(all="ignore"):
             qt2 = run_qtools.QTools(model, process=process,
                                     source_quantizers=[Q.quantizers.get_quantizer(s) for s in srcq],
-                                    is_inference=False, weights_path=None, keras_quantizer="fp32",
-                                    keras_accumulator="fp32", for_reference=for_reference)
+                                    is_inference=False, weights_path=None, keras_quantizer=kq_ref,
+                                    keras_accumulator=ka_ref, for_reference=for_reference)
             k2 = len(history) - 2
             o2 = history[k2][0]
             ed2 = qt2.pe(weights_on_memory=o2[0], activations_on_memory=o2[1], min_sram_size=o2[2], rd_wr_on_io=o2[3])
@@ -1425,6 +1587,9 @@ def run(run: core.Run, tier: str):
   if orig_polys is not None:
     for k, v in orig_polys.items():
       setattr(qsettings.cfg, k, v)
+  if interm_default is not None:
+    config_public.config_settings["default_interm_quantizer"] = interm_default
+    qsettings.cfg.default_interm_quantizer = interm_default
 
   # =============================================================== component clauses (real functions only)
   # C19_entry_memory_read / C19_entry_memory_write / C19_entry_parameters_fixed judged directly on
